@@ -378,6 +378,17 @@ inductive MatVal (α : Type) where
   | strs (l : List Str)
   | nums (rows : List (List α))
 
+/-- `loadmat` of a MATLAB char matrix: every row is blank-padded to the longest -/
+def padStrs (l : List Str) : List Str :=
+  let w := l.foldl (fun m s => max m s.length) 0
+  l.map (fun s => s ++ List.replicate (w - s.length) ' ')
+
+/-- `loadmat(fpath)`: string variables come back as blank-padded char matrices -/
+def loadmatVars {α : Type} (vars : List (Str × MatVal α)) : List (Str × MatVal α) :=
+  vars.map (fun kv => (kv.1, match kv.2 with
+    | .strs l => .strs (padStrs l)
+    | v => v))
+
 /-- `utvs, stimuli, pnames, tnames, tidx` -/
 structure Comps (α : Type) where
   utvs : List (List α)
@@ -540,6 +551,17 @@ def mneDescriptors (fname : Str) : Option Str × Option Str × Option Str :=
   let segs := splitOn '_' fname
   (findLastEntity sSub segs, findLastEntity sRun segs, findLastEntity sTask segs)
 
+/-- `epochs.times` (mne's contract): sample `k` of an epoch that starts `first` samples after the
+    event lies at `(first + k) / sfreq` seconds -/
+def epochTimes {α : Type} [Div α] [IntCast α] (first : Int) (sfreq : α) (n : Nat) : List α :=
+  (List.range n).map (fun (k : Nat) => ((first + Int.ofNat k : Int) : α) / sfreq)
+
+/-- `epochs[<condition>]`: the epochs (and their event rows) whose event code is kept -/
+def selectEpochs {β : Type} (keep : Int → Bool) (data : List β) (events : List (Int × Int × Int)) :
+    List β × List (Int × Int × Int) :=
+  let z := (data.zip events).filter (fun de => keep de.2.2.2)
+  (z.map (·.1), z.map (·.2))
+
 /-! ### 5. design matrix (`make_design_matrix`) -/
 
 /-- `Series.unique()`: distinct values in order of first appearance -/
@@ -606,7 +628,46 @@ def designFromEvents {τ : Type} [BEq τ] (events : List (τ × α)) (hrfCol : L
       hrfCol ((events.filter (fun e => e.1 == c)).map (·.2))))
     confounds nVols
 
+/-! #### the HRF predictor column, for any response
+
+`make_design_matrix` places the resampled response at every onset `o` of a condition
+(`pchip(o + hrf_times, hrf, extrapolate=False)`), evaluates it at the volume times and adds the
+contributions up, `NaN` (outside the support) counting as zero.  The interpolant `P` of the
+response placed at onset 0 is a parameter (contract of scipy's PCHIP: placing the knots at
+`o + hrf_times` shifts the interpolant by `o`); everything else is modelled. -/
+
+/-- `all_times[i]` (generated leaf `volTime` = numpy's `linspace` formula on the source's
+    arguments) -/
+def volTimeAt (tr : α) (n i : Nat) : α := Rsa.Gen.C20.volTime (i : α) tr (n : α)
+
+/-- `hrf_times[-1]`: end of the support of a response of `len` samples -/
+def hrfEnd (tr : α) (len : Nat) : α := Rsa.Gen.C20.hrfTime ((len - 1 : Nat) : α) tr (len : α)
+
+/-- `nan_to_num(pchip(o + hrf_times, hrf, extrapolate=False)(t))` -/
+def respAt (P : α → α) (T o t : α) : α := if o ≤ t ∧ t ≤ o + T then P (t - o) else 0
+
+/-- the un-normalised predictor column of one condition -/
+def predictorCol (P : α → α) (T tr : α) (n : Nat) (onsets : List α) : List α :=
+  (List.range n).map (fun i => (onsets.map (fun o => respAt P T o (volTimeAt tr n i))).sum)
+
+/-- `make_design_matrix` from the events on: `respLen` = number of samples of the resampled
+    response, `P` its interpolant -/
+def designMatrix {τ : Type} [BEq τ] (events : List (τ × α)) (P : α → α) (respLen : Nat) (tr : α)
+    (confounds : Option (List (List (Option α)))) (nVols : Nat) : Except String (Design α) :=
+  designFromEvents events (predictorCol P (hrfEnd tr respLen) tr nVols) confounds nVols
+
 end design
+
+/-- `FmriprepRun.get_confounds`: `cf_names or <default>`, then `df[cf_names]` — the requested
+    columns in the requested order, `KeyError` when one is missing -/
+def selectConfounds {β : Type} (dflt : List Str) (cfNames : Option (List Str))
+    (table : List (Str × β)) : Except String (List (Str × β)) :=
+  let names := match cfNames with
+    | some (n :: ns) => n :: ns
+    | _ => dflt
+  names.mapM (fun n => match table.find? (fun kv => kv.1 == n) with
+    | some kv => .ok (n, kv.2)
+    | none => .error "KeyError")
 
 /-! ### 6. SPM -/
 
@@ -672,6 +733,17 @@ def selectBetas {β : Type} (l : List β) (reg : List Int) : List (Option β) :=
 /-- the same with the index leaf of `get_residuals` -/
 def selectResiduals {β : Type} (l : List β) (reg : List Int) : List (Option β) :=
   reg.map (fun r => pyIndex l (Rsa.Gen.C20.regIndexResiduals r))
+
+def sResMS : Str := ['R', 'e', 's', 'M', 'S', '.', 'n', 'i', 'i']
+
+/-- the images `get_betas` samples: the beta images of the regressors of interest in their order,
+    then `ResMS.nii` -/
+def betaImages (path : Str) (betaFiles : List Str) (reg : List Int) : List (Option Str) :=
+  (selectBetas betaFiles reg).map (fun o => o.map (fun f => path ++ '/' :: f)) ++
+    [some (path ++ '/' :: sResMS)]
+
+/-- `data[:-1, :], data[-1, :]` -/
+def splitBetas {β : Type} (rows : List β) : List β × Option β := (rows.dropLast, rows.getLast?)
 
 def sFunc : Str := ['f', 'u', 'n', 'c']
 
